@@ -179,6 +179,12 @@ class BuiltinMixin(object):
         a, b = [self.ev1(x, st) for x in e.args]
         return core.sinter(a, b)
 
+    def sf_bigunion(self, e, st):
+        """union of the values of a dict of sets (virtual set)"""
+        m = self.ev1(e.args[0], st)
+        return core.svirt(m.ty.v.elem, lambda x, m=m: core.exists_ty(
+            m.ty.k, lambda k: z3.And(core.smem_t(core.mdom(m), k), z3.Select(z3.Select(core.mval(m), k), x))))
+
     def sf_single(self, e, st):
         a = self.ev1(e.args[0], st)
         return core.sadd(core.sempty(a.ty), a)
@@ -623,6 +629,11 @@ class BuiltinMixin(object):
         res = []
         for st1, vals in self._args1(e, st):
             obj, name = vals[0], e.args[1]
+            if len(vals) == 3 and isinstance(name, ast.Constant) and isinstance(obj.ty, Ref) and \
+                    self.field_ty(obj.ty.cls, name.value) is not None:
+                has = core.ufun("hasattr_" + name.value, [obj], BOOL).t
+                res.append((st1, self._select(has, self.heap_get(st1, obj, name.value), vals[2])))
+                continue
             if isinstance(name, ast.Constant) and isinstance(obj.ty, Ref):
                 if self.field_ty(obj.ty.cls, name.value) is not None or self.reg.classes[obj.ty.cls].get("__dynamic__"):
                     res.append((st1, self.heap_get(st1, obj, name.value)))
